@@ -162,6 +162,45 @@ pub fn run(case: &str) -> String {
             let mut parser = ANSIParser::default();
             lines.iter().map(|l| obs(&parser.parse_ansi(l))).collect::<Vec<_>>().join("/")
         }
+        "pv" => {
+            // consecutive PAIRS of lines are preview texts; the real Previewer shows them one after the other (ItemPreview::AnsiText)
+            // and what its pane holds after each is observed: every text starts from default attributes
+            use skim::verif::sched;
+            struct PvItem(String);
+            impl SkimItem for PvItem {
+                fn text(&self) -> Cow<str> {
+                    Cow::Borrowed("x")
+                }
+                fn preview(&self, _context: PreviewContext) -> ItemPreview {
+                    ItemPreview::AnsiText(self.0.clone())
+                }
+            }
+            let texts: Vec<String> = lines.chunks(2).map(|c| c.join("\n")).collect();
+            sched::reset();
+            sched::set_tracing(true);
+            let mut pv = skim::verif::Previewer::new(None, || {});
+            let mut out: Vec<String> = vec![];
+            for (i, t) in texts.iter().enumerate() {
+                let item: Arc<dyn SkimItem> = Arc::new(PvItem(t.clone()));
+                pv.on_item_change(i, item.clone(), String::new(), String::new(), 0, || (vec![], vec![]), true);
+                let sent = (i + 1) as u64;
+                let deadline = std::time::Instant::now() + std::time::Duration::from_millis(3000);
+                loop {
+                    let got = sched::count("pv.recv") + sched::count("pv.tryrecv");
+                    if got >= sent && sched::count("pv.idle") == sched::count("pv.recv") + 1 {
+                        break;
+                    }
+                    if std::time::Instant::now() >= deadline {
+                        return "error:preview-did-not-settle".into();
+                    }
+                    std::thread::sleep(std::time::Duration::from_micros(300));
+                }
+                for l in pv.verif_content_lines().iter() {
+                    out.push(obs(l));
+                }
+            }
+            out.join("/")
+        }
         "hdr" => {
             let whole = lines.join("\n");
             let mut options = SkimOptionsBuilder::default().build().unwrap();
